@@ -181,3 +181,14 @@ Definition np_binary_dilation (a : arr bool) (sr sc it : Z) : arr bool :=
 (* what masks_dilatation reads of an image dataset: the selected band (for the sizes), the optional msk variable,
    attrs["valid_pixels"] and attrs["no_data_mask"] *)
 Record dataset : Type := MkDs { d_im : arr Z; d_msk : option (arr Z); d_valid_pixels : Z; d_no_data_mask : Z }.
+
+(* an image dataset of ny x nx pixels: band im, optional mask m, attrs valid_pixels = vp, no_data_mask = nd *)
+Definition ds_of (ny nx vp nd : Z) (im : img) (m : option img) : dataset :=
+  MkDs (np_of ny nx im) (match m with Some x => Some (np_of ny nx x) | None => None end) vp nd.
+
+(* ------------------------------------------------------------------ what a theorem says of an array *)
+
+(* the array is valid (numpy raises nowhere while building it), has shape (nr, nc) and holds f at the non-negative
+   indices *)
+Definition is_arr {A : Type} (a : arr A) (nr nc : Z) (f : Z -> Z -> A) : Prop :=
+  a_ok a = true /\ a_nr a = nr /\ a_nc a = nc /\ forall r c, 0 <= r -> 0 <= c -> a_at a r c = f r c.
